@@ -125,28 +125,31 @@ Fixpoint load_builtins_from (l : list (list N * N)) (i : N) : M unit :=
 Definition load_builtins : M unit := load_builtins_from Gen.Builtins.builtin_table 0.
 
 (* ---------------------------------------------------------- evaluation *)
-Definition EVAL_FUEL : nat := 400000.
-Definition eval_cell (e : cell) (s : vm) : res run_result := eval other_builtin EVAL_FUEL e s.
+(* instruction budget of the MODEL per evaluation; passed as a parameter to the
+   fixpoints below so that the guard checker never normalises the numeral *)
+Definition EVAL_FUEL : nat := N.to_nat 400000.
+Definition eval_cell_f (ef : nat) (e : cell) (s : vm) : res run_result := eval other_builtin ef e s.
+Definition eval_cell := eval_cell_f EVAL_FUEL.
 
 (* one outcome per datum of a text, in order (the front ends' loop over
    Vm::eval_text); stops at the first read error *)
 Inductive form_result := FOk (c : cell) | FErr (e : N) (msg : text) | FPanic | FNoFuel.
 
-Fixpoint eval_text_all (fuel : nat) (t : text) (s : vm) (acc : list form_result) : list form_result * vm :=
+Fixpoint eval_text_all_f (ef : nat) (fuel : nat) (t : text) (s : vm) (acc : list form_result) {struct fuel} : list form_result * vm :=
   match fuel with
   | O => (rev (FNoFuel :: acc), s)
   | S f =>
       match parse_text t with
       | Ok (d, rest) =>
-          match eval_cell d s with
+          match eval_cell_f ef d s with
           | ROk (Done c) s' =>
               match rest with
-              | Some r => eval_text_all f r s' (FOk c :: acc)
+              | Some r => eval_text_all_f ef f r s' (FOk c :: acc)
               | None => (rev (FOk c :: acc), s')
               end
           | ROk (Failed e m) s' =>
               match rest with
-              | Some r => eval_text_all f r s' (FErr e m :: acc)
+              | Some r => eval_text_all_f ef f r s' (FErr e m :: acc)
               | None => (rev (FErr e m :: acc), s')
               end
           | ROk Yield s' => (rev (FNoFuel :: acc), s')
@@ -159,6 +162,8 @@ Fixpoint eval_text_all (fuel : nat) (t : text) (s : vm) (acc : list form_result)
       | NoFuel => (rev (FNoFuel :: acc), s)
       end
   end.
+
+Definition eval_text_all := eval_text_all_f EVAL_FUEL.
 
 (* Vm::new, vm/mod.rs:55-70 + load_prelude: scan/parse/eval every form of the
    GENERATED prelude text.  None when the prelude does not load (the Rust would
